@@ -813,8 +813,10 @@ class Object(ObjectAliasMixin):
         # Current package is a regular package,
         # and current module is a regular module or package,
         # try to compute the path relative to the parent folder
-        # of the package (search path).
-        return self.filepath.relative_to(package_path.parent.parent)
+        # of the package (search path). A top-level module that is a single file
+        # lies directly in the search path.
+        search_path = package_path.parent.parent if self.package.is_init_module else package_path.parent
+        return self.filepath.relative_to(search_path)
 
     @property
     def relative_filepath(self) -> Path:
